@@ -336,6 +336,43 @@ def _fold_val(node, env):
     return None
 
 
+def _macro_from_constants(m, init):
+    """Second reader for the ModR/M macro: the replacement texts are looked for among the string constants of __init__,
+    of the module-level functions it reaches by name, and of the module-level string assignments those name.  The /digit
+    template is the one constant with 'Mod(' and one '%s'; the /r text is either a constant with 'Mod(' and no '%s', or the
+    template filled with the single 'NAME(3)'-shaped constant.  Anything ambiguous gives (None, None)."""
+    import re as _re
+    funcs = {n.name: n for n in m.tree.body if isinstance(n, ast.FunctionDef)}
+    mconst = {}
+    for n in m.tree.body:
+        if isinstance(n, ast.Assign) and len(n.targets) == 1 and isinstance(n.targets[0], ast.Name) \
+                and isinstance(n.value, ast.Constant) and isinstance(n.value.value, str):
+            mconst[n.targets[0].id] = n.value.value
+    seen, todo, consts = set(), [init], []
+    while todo:
+        fn = todo.pop()
+        for n in ast.walk(fn):
+            if isinstance(n, ast.Constant) and isinstance(n.value, str):
+                consts.append(n.value)
+            elif isinstance(n, ast.Name) and n.id in mconst:
+                consts.append(mconst[n.id])
+            elif isinstance(n, ast.JoinedStr):
+                consts.append("".join(v.value if isinstance(v, ast.Constant) else "%s" for v in n.values))
+            if isinstance(n, ast.Call) and isinstance(n.func, ast.Name) and n.func.id in funcs and n.func.id not in seen:
+                seen.add(n.func.id)
+                todo.append(funcs[n.func.id])
+    tmpl = sorted(set(c for c in consts if "Mod(" in c and c.count("%s") == 1))
+    full = sorted(set(c for c in consts if "Mod(" in c and "%" not in c))
+    regs = sorted(set(c for c in consts if _re.fullmatch(r"[A-Za-z_]+\(3\)", c)))
+    if len(tmpl) != 1:
+        return None, None
+    if len(full) == 1:
+        return full[0], tmpl[0]
+    if not full and len(regs) == 1:
+        return tmpl[0] % regs[0], tmpl[0]
+    return None, None
+
+
 def ia32_macro(repo):
     """Re-read the '/r' and '/digit' replacement texts from ispec_ia32.__init__'s AST.
 
@@ -357,6 +394,8 @@ def ia32_macro(repo):
                     rtxt = a1.value
                 elif isinstance(a1, ast.BinOp) and isinstance(a1.op, ast.Mod) and isinstance(a1.left, ast.Constant):
                     dtxt = a1.left.value
+        if rtxt is None or dtxt is None:
+            rtxt, dtxt = _macro_from_constants(m, init.node)
         if rtxt is None or dtxt is None:
             raise AnalysisError("cannot read the /r //digit macro text from %s.ispec_ia32.__init__" % modname)
         out[modname] = (rtxt, dtxt)
